@@ -207,6 +207,35 @@ fn prune_siblings(name: &str) {
     }
 }
 
+fn pipe_trunc(s: &str, n: usize) -> String {
+    if s.len() <= n {
+        s.to_string()
+    } else {
+        let mut k = n;
+        while !s.is_char_boundary(k) {
+            k -= 1;
+        }
+        format!("{} …", &s[..k])
+    }
+}
+
+/// Indices K of the binaries `gen_<name>_bK` that cargo reports as not compiled.
+fn crashed_bins(text: &str, name: &str) -> Vec<usize> {
+    let pat = format!("(bin \"gen_{}_b", name);
+    let mut out = vec![];
+    let mut rest = text;
+    while let Some(p) = rest.find(&pat) {
+        rest = &rest[p + pat.len()..];
+        let num: String = rest.chars().take_while(|c| c.is_ascii_digit()).collect();
+        if let Ok(k) = num.parse::<usize>() {
+            if !out.contains(&k) {
+                out.push(k);
+            }
+        }
+    }
+    out
+}
+
 /// Same, for ready-made module bodies (each must define `pub fn run(&rt::Case) -> rt::Trace`).
 pub fn build_modules(name: &str, mut modules: BTreeMap<usize, String>, n_bins: usize) -> GenBuild {
     let t0 = std::time::Instant::now();
@@ -233,9 +262,34 @@ pub fn build_modules(name: &str, mut modules: BTreeMap<usize, String>, n_bins: u
             };
         }
         if per_mod.is_empty() {
+            // rustc itself crashed (stack overflow in its parser on deeply nested generated code):
+            // find the binaries it died on and, if they hold several modules, rebuild those
+            // modules one per binary to name the definitions responsible
+            if other.contains("SIGSEGV") {
+                let suspects: Vec<usize> = crashed_bins(&other, name).into_iter().filter_map(|b| groups.get(b)).flatten().copied().collect();
+                let culprits: Vec<usize> = if suspects.len() <= 1 {
+                    suspects
+                } else {
+                    let sub: BTreeMap<usize, String> = suspects.iter().filter_map(|i| modules.get(i).map(|m| (*i, m.clone()))).collect();
+                    let groups2 = write_crate(name, &sub, sub.len());
+                    let (ok2, _, other2) = cargo_build(name);
+                    if ok2 {
+                        vec![]
+                    } else {
+                        crashed_bins(&other2, name).into_iter().filter_map(|b| groups2.get(b)).flatten().copied().collect()
+                    }
+                };
+                if !culprits.is_empty() {
+                    for i in culprits {
+                        modules.remove(&i);
+                        failed.insert(i, "rustc crashes (SIGSEGV: stack overflow) while compiling the expansion of this definition".to_string());
+                    }
+                    continue;
+                }
+            }
             infra(&format!(
                 "generated crate {} does not build and the error is not attributable to a module (round {}):\n{}",
-                name, round, other
+                name, round, pipe_trunc(&other, 6000)
             ));
         }
         for (i, e) in per_mod {
